@@ -756,3 +756,24 @@ Proof.
   - intros H i Hi. apply forallb_forall. intros j Hj. apply mem_In.
     apply (H i j Hi). apply below_In. exact Hj.
 Qed.
+
+(* the active set only grows: an activation request (accepted or not) never deactivates an index *)
+Lemma active_monotone_step : forall mx s i j, In j (active s) -> In j (active (activate mx s i)).
+Proof.
+  intros mx s i j Hj. destruct (accepts s i) eqn:Ha.
+  - apply (accept_active mx s i Ha). left; exact Hj.
+  - rewrite (reject_unchanged mx s i Ha). exact Hj.
+Qed.
+
+Lemma active_monotone_fold : forall mx more s j, In j (active s) -> In j (active (fold_left (activate mx) more s)).
+Proof.
+  intros mx more. induction more as [|r more IH]; intros s j Hj; cbn [fold_left]; [exact Hj|].
+  apply IH. apply active_monotone_step. exact Hj.
+Qed.
+
+(* whatever the history is continued with, everything active stays active *)
+Lemma active_monotone : forall mx reqs more j,
+  In j (active (run mx reqs)) -> In j (active (run mx (reqs ++ more))).
+Proof.
+  intros mx reqs more j Hj. unfold run. rewrite fold_left_app. apply active_monotone_fold. exact Hj.
+Qed.
